@@ -4,6 +4,7 @@ import (
 	"fmt"
 	"go/token"
 	"go/types"
+	"regexp"
 	"sort"
 	"strings"
 )
@@ -407,6 +408,23 @@ func (g *genCtx) tl2Agreement(c *Check, name string, roles map[string]*FuncInfo)
 	pos := posStr(g.co.Fset, wr.Decl.Pos())
 	// a value stored into the destination collection must come from a temporary that is fresh per element
 	g.freshTemporaries(c, "tl2-reader-fresh-temporaries", name+".InternalReadTL2", rd)
+	// the layout pass drops the size entries of an object whose body turned out empty whenever it is empty — the
+	// writer returns early for an empty body without consuming them, whatever optimizeEmpty says
+	if ca != nil {
+		for _, n := range g.ir(ca).Body {
+			in, ok := n.(*IfN)
+			if !ok {
+				continue
+			}
+			for _, t := range in.Then {
+				if as, isA := t.(*AssignN); isA && len(as.LHS) == 1 && len(as.RHS) == 1 && as.LHS[0] == "sizes" && strings.HasPrefix(as.RHS[0], "sizes[:") {
+					cond := in.Cond.String()
+					okc := in.Cond.Kind == "nz" && in.Cond.Neg && localRx.MatchString(in.Cond.X) && len(in.Else) == 0
+					c.Ob("tl2-calc/size-entries-dropped-whenever-empty", name, okc, posStr(g.co.Fset, in.Pos), "the truncation of the size list is guarded by `body size == 0` alone: "+cond)
+				}
+			}
+		}
+	}
 	// (2) flattened value ops
 	ww, wb := g.wire(wr, tl2WriteCfg, "w")
 	rw, rb := g.wire(rd, tl2ReadCfg, "r")
@@ -434,6 +452,25 @@ func (g *genCtx) tl2Agreement(c *Check, name string, roles map[string]*FuncInfo)
 	}
 	// (1) slots
 	wsl, _ := g.writerSlots(wr)
+	// a float field is left out of the TL2 encoding only when it is the zero *bit pattern*: `x != 0` is false for
+	// -0.0, which would then come back as +0.0 and re-encode differently in TL1
+	if wir := g.ir(wr); wir.Recv != nil && c.ID == "C03" {
+		if st, isS := derefStruct(wir.Recv.Type()); isS {
+			for _, sl := range wsl {
+				m := regexp.MustCompile(`^nz\(item\.(\w+)\)$`).FindStringSubmatch(sl.Cond)
+				if m == nil {
+					continue
+				}
+				for i := 0; i < st.NumFields(); i++ {
+					if f := st.Field(i); f.Name() == m[1] {
+						if b, isB := f.Type().Underlying().(*types.Basic); isB && b.Info()&types.IsFloat != 0 {
+							c.Ob("tl2-slot/float-omitted-only-when-bitwise-zero", shortConstruct(name)+"/float-field", false, posStr(g.co.Fset, sl.Pos), "float field "+m[1]+" is written only under `"+m[1]+" != 0`, which is false for -0.0")
+						}
+					}
+				}
+			}
+		}
+	}
 	rsl, _, framing := g.readerSlots(rd)
 	for _, f := range framing {
 		c.Ob("tl2-block-framing", name, false, pos, f)
@@ -686,3 +723,19 @@ func (g *genCtx) tl2ReaderFraming(c *Check, name string, rd *FuncInfo, rw []W, w
 }
 
 var _ = sort.Strings
+
+func derefStruct(t types.Type) (*types.Struct, bool) {
+	if p, ok := t.(*types.Pointer); ok {
+		t = p.Elem()
+	}
+	st, ok := t.Underlying().(*types.Struct)
+	return st, ok
+}
+
+// shortConstruct drops the corpus prefix, so that one finding covers the same generated construct in every corpus.
+func shortConstruct(name string) string {
+	if i := strings.Index(name, ":"); i >= 0 {
+		return "generated struct writers"
+	}
+	return name
+}
